@@ -506,7 +506,94 @@ func propC14Messages(t *rapid.T) {
 	statCase("C14", n > 0 && (style == "printf" || style == "logf" || style == "println" || style == "logln"), fmt.Sprintf("msg|%s|%d|%v", style, n, strings.Count(tmpl, "%")), "message style "+style)
 }
 
+// propC14TwoCalls: two sugared calls through ONE logger whose core retains the
+// entries (the observer, like any asynchronous or batching core). What the
+// first call reported - its fields and its diagnostics - must still read the
+// same after the second call.
+func propC14TwoCalls(t *rapid.T) {
+	core, logs := observer.New(zapcore.DebugLevel)
+	term := new(int64)
+	s := zap.New(core, zap.WithFatalHook(countHook{term}), zap.WithPanicHook(countHook{term})).Sugar()
+	gen := func(label string) ([]c14Arg, []any) {
+		n := rapid.IntRange(1, 7).Draw(t, label)
+		ca := make([]c14Arg, n)
+		as := make([]any, n)
+		for i := range ca {
+			ca[i] = genC14Arg(t)
+			as[i] = ca[i].v
+		}
+		return ca, as
+	}
+	c1, a1 := gen("nArgs1")
+	c2, a2 := gen("nArgs2")
+	mode1 := rapid.SampledFrom([]string{"w", "with", "withlazy"}).Draw(t, "mode1")
+	mode2 := rapid.SampledFrom([]string{"w", "with", "withlazy"}).Draw(t, "mode2")
+	call := func(mode, msg string, args []any) {
+		defer func() {
+			if p := recover(); p != nil {
+				t.Fatalf("sugared call panicked: %v", p)
+			}
+		}()
+		switch mode {
+		case "w":
+			s.Infow(msg, args...)
+		case "with":
+			s.With(args...).Info(msg)
+		case "withlazy":
+			s.WithLazy(args...).Info(msg)
+		}
+	}
+	render := func(es []observer.LoggedEntry) []string {
+		var out []string
+		for _, e := range es {
+			out = append(out, fmt.Sprintf("%v|%s|%s", e.Level, e.Message, recString(e.Context...)))
+		}
+		return out
+	}
+	call(mode1, "first", a1)
+	n1 := logs.Len()
+	snap := render(logs.All())
+	call(mode2, "second", a2)
+	all := logs.All()
+	after := render(all[:n1])
+	for i := range snap {
+		if snap[i] != after[i] {
+			t.Fatalf("entry %d of the first call changed after the second call:\n before: %s\n after:  %s\n first args %s (%s)\n second args %s (%s)", i, clipS(snap[i]), clipS(after[i]), renderArgs(c1), mode1, renderArgs(c2), mode2)
+		}
+	}
+	// and the first call's entries are what the reference says (diagnostics matched as in propC14Args)
+	wantFields, wantDiags := c14Reference(a1)
+	first := all[:n1]
+	if len(first) != 1+len(wantDiags) {
+		t.Fatalf("first call produced %d entries, reference expects 1 + %d diagnostics", len(first), len(wantDiags))
+	}
+	used := make([]bool, len(first))
+	for _, d := range wantDiags {
+		found := false
+		for i, e := range first {
+			if used[i] || e.Level != zapcore.ErrorLevel || e.Message == "first" {
+				continue
+			}
+			if diagMatches(d, e) {
+				used[i], found = true, true
+				break
+			}
+		}
+		if !found {
+			t.Fatalf("after a second sugared call, no error-level entry of the first call identifies its %s item any more\n first args %s (%s)\n second args %s (%s)\n entries %v", d.kind, renderArgs(c1), mode1, renderArgs(c2), mode2, first)
+		}
+	}
+	for _, e := range first {
+		if e.Message == "first" && recString(e.Context...) != recString(wantFields...) {
+			t.Fatalf("main entry of the first call differs from the reference after the second call:\n got  %s\n want %s", clipS(recString(e.Context...)), clipS(recString(wantFields...)))
+		}
+	}
+	_, d2 := c14Reference(a2)
+	statCase("C14", len(wantDiags) > 0 && len(d2) > 0, "two|"+mode1+mode2+"|"+argShape(c1)+"|"+argShape(c2), "two calls through a retaining core")
+}
+
 func TestC14Args(t *testing.T)     { rapid.Check(t, propC14Args) }
+func TestC14TwoCalls(t *testing.T) { rapid.Check(t, propC14TwoCalls) }
 func TestC14Messages(t *testing.T) { rapid.Check(t, propC14Messages) }
 
 func TestRegressC14(t *testing.T) {
